@@ -78,6 +78,7 @@ class Sim:
         self.sched = sched
         self.clockcfg = clock
         self.rng_sched = random.Random('%s/sched' % seed)
+        self.rng_timer = random.Random('%s/timer-race' % seed)      # its own stream: replays by explicit schedule draw the same
         self.rng_clock = random.Random('%s/clock' % seed)
         self.rng_fault = random.Random('%s/fault' % seed)
         self.rng_os = random.Random('%s/os' % seed)
@@ -87,6 +88,7 @@ class Sim:
         self.step_cap = step_cap
         # statements executed by the harness thread itself (single-client checks run the code under test there): a call that
         # never returns shows up as this count passing its cap, deterministically, instead of as a worker that hangs
+        self.timer_race_p = 0.0
         self.hsteps = 0
         self.hcap = int(os.environ.get('VERIF_HCAP', '100000'))
         self.line_p = line_p
@@ -319,6 +321,12 @@ class Sim:
     def _pick(self, cur):
         self._due_timers()
         runnable = self._runnable()
+        if self.timer_race_p and self.timers and runnable and self.rng_timer.random() < self.timer_race_p:
+            # opt-in (one scenario of C06): the runnable tasks are slow - the next timer (a busy timeout, a sleep) expires
+            # although somebody could still run.  Without it a timeout only elapses when everybody waits.
+            self._fire_timers()
+            self.fire('timer-race')
+            runnable = self._runnable()
         while not runnable:
             if not self._fire_timers():
                 if all(t.state == 'done' for t in self.tasks):
